@@ -72,9 +72,10 @@ func c10Jobs(tier string, seed int64) []string {
 		jobs = append(jobs, p)
 	}
 	if tier == "thorough" {
-		g := &progGen{r: rng(seed, "c10rnd")}
+		g := &progGen{r: rng(seed, "c10rnd"), args: []string{"a", "b"}}
 		for i := 0; i < 200; i++ {
-			jobs = append(jobs, replaceC(g.program()))
+			g.shadow = i%2 == 1
+			jobs = append(jobs, g.program())
 		}
 	}
 	return jobs
